@@ -451,28 +451,41 @@ func (en *env) runTxns(r *evid.Run, thorough bool) {
 				if t.name != "existing" && (ci > 1 || li%7 != 0) {
 					continue // table validation does not depend on the nested content: sample it
 				}
-				req := wire(en, &regattapb.TxnRequest{Table: t.b, Compare: cl.cs, Success: l.ops, Failure: l.ops}, &regattapb.TxnRequest{})
-				desc := fmt.Sprintf("Txn{table=%s if %v then/else %v}", t.name, cl.names, l.names)
-				var w want
-				switch {
-				case len(t.b) == 0:
-					w = want{codes: []codes.Code{codes.InvalidArgument}, reason: "missing table"}
-				case t.name == "unknown":
-					w = want{codes: []codes.Code{codes.NotFound}, reason: "unknown table"}
-				case l.rej != "":
-					w = want{nonOK: true, reason: l.rej}
-				default:
-					w = want{free: true} // malformed reads/deletes/predicates inside a transaction: unconstrained, must not crash
-				}
-				evid.Journal("C16", desc)
-				err, p := call(func() error { _, e := en.kv.Txn(ctx, req); return e })
-				r.Outcome(desc+status.Code(err).String(), true)
-				for _, vv := range en.after("Txn", desc, w, err, p, l.write) {
-					r.Violate(vv.sig, vv.detail, map[string]any{"kind": "Txn", "request": desc})
-				}
-				n++
-				if l.write && n%16 == 0 {
-					en.cleanup()
+				for _, branch := range []string{"then/else", "then", "else"} {
+					if branch != "then/else" && (l.rej == "" || ci > 1) {
+						continue // one-sided placement matters for the lists that must be refused
+					}
+					treq := &regattapb.TxnRequest{Table: t.b, Compare: cl.cs, Success: l.ops, Failure: l.ops}
+					valid := []*regattapb.RequestOp{{Request: &regattapb.RequestOp_RequestPut{RequestPut: &regattapb.RequestOp_Put{Key: []byte("valid"), Value: []byte("v")}}}}
+					switch branch {
+					case "then":
+						treq.Failure = valid
+					case "else":
+						treq.Success = valid
+					}
+					req := wire(en, treq, &regattapb.TxnRequest{})
+					desc := fmt.Sprintf("Txn{table=%s if %v %s %v}", t.name, cl.names, branch, l.names)
+					var w want
+					switch {
+					case len(t.b) == 0:
+						w = want{codes: []codes.Code{codes.InvalidArgument}, reason: "missing table"}
+					case t.name == "unknown":
+						w = want{codes: []codes.Code{codes.NotFound}, reason: "unknown table"}
+					case l.rej != "":
+						w = want{nonOK: true, reason: l.rej}
+					default:
+						w = want{free: true} // malformed reads/deletes/predicates inside a transaction: unconstrained, must not crash
+					}
+					evid.Journal("C16", desc)
+					err, p := call(func() error { _, e := en.kv.Txn(ctx, req); return e })
+					r.Outcome(desc+status.Code(err).String(), true)
+					for _, vv := range en.after("Txn", desc, w, err, p, l.write) {
+						r.Violate(vv.sig, vv.detail, map[string]any{"kind": "Txn", "request": desc})
+					}
+					n++
+					if l.write && n%16 == 0 {
+						en.cleanup()
+					}
 				}
 			}
 		}
@@ -576,7 +589,7 @@ func (en *env) runTables(r *evid.Run) {
 
 func Run(r *evid.Run) {
 	r.Check = "c16"
-	r.Rule("per-field domain products through the registered codec into the real KVServer / TablesServer / ReadonlyTablesServer over a real engine: Range and IterateRange = table{empty,existing,unknown} x key{empty,k,1024B,1025B} x range_end{absent,present-empty,wildcard,z,1025B} x limit{-1,0,1} x keys_only x count_only x linearizable x revision filter{none, each of 4}; Put = table x key x value{empty,v,2MiB,2MiB+1} x prev_kv; DeleteRange = table x key x range_end x prev_kv x count; Txn = table x <=1 of 12 predicates x <=2 of 24 nested operations (reads/puts/deletes over the same domains, empty oneof, out-of-enum comparison) in both branches; Tables create/delete/list with names {empty,new,existing,a/b,sys/idseq,t/lease,../x,*} on leader and follower wiring. Classifier from the documented constraints; after every refused or read-only request the table list and the full content of every table must be unchanged; a handler panic or a dead process is a violation. Non-trivial: every request; distinct = distinct (request, status)")
+	r.Rule("per-field domain products through the registered codec into the real KVServer / TablesServer / ReadonlyTablesServer over a real engine: Range and IterateRange = table{empty,existing,unknown} x key{empty,k,1024B,1025B} x range_end{absent,present-empty,wildcard,z,1025B} x limit{-1,0,1} x keys_only x count_only x linearizable x revision filter{none, each of 4}; Put = table x key x value{empty,v,2MiB,2MiB+1} x prev_kv; DeleteRange = table x key x range_end x prev_kv x count; Txn = table x <=1 of 12 predicates x <=2 of 24 nested operations (reads/puts/deletes over the same domains, empty oneof, out-of-enum comparison) in both branches, and for lists that must be refused also in the success branch only and in the failure branch only; Tables create/delete/list with names {empty,new,existing,a/b,sys/idseq,t/lease,../x,*} on leader and follower wiring. Classifier from the documented constraints; after every refused or read-only request the table list and the full content of every table must be unchanged; a handler panic or a dead process is a violation. Non-trivial: every request; distinct = distinct (request, status)")
 	eng, err := engx.Start(engx.Opts{})
 	if err != nil {
 		fmt.Println("INFRA: engine start failed:", err)
